@@ -16,9 +16,11 @@ import (
 )
 
 var engines = map[string]func(*engine.Ctx){
+	"C01": engine.C01,
 	"C08": engine.C08,
 	"C09": engine.C09,
 	"C10": engine.C10,
+	"C11": engine.C11,
 }
 
 func usage() {
